@@ -148,6 +148,8 @@ def mk_outcomes(con, with_site_nesting, neighbour):
                 if with_site_nesting:
                     inner = resource.Site()
                     inner.add_resource(["h"], res)
+                    rootres = H(0, 0)
+                    inner.add_resource([], rootres)        # the nested site's own root resource: </deep/>, not </deep>
                     site.add_resource(["deep"], inner)
                     good_path = ["deep", "h"]
                 else:
@@ -155,7 +157,7 @@ def mk_outcomes(con, with_site_nesting, neighbour):
                     good_path = ["h"]
                 site.add_resource(["n"], nb)
                 S = stack.StackS(loop, site)
-                m = Message(code=meth, _mtype=CON if con else NON, _mid=77, _token=b"\x09", uri_path=good_path if path_ok else ["nope"])
+                m = Message(code=meth, _mtype=CON if con else NON, _mid=77, _token=b"\x09", uri_path=good_path if path_ok else (["deep"] if with_site_nesting and mi % 2 else ["nope"]))
                 if nrv is not None:
                     m.opt.no_response = nrv
                 if neighbour:
@@ -189,6 +191,8 @@ def mk_outcomes(con, with_site_nesting, neighbour):
                 if con:
                     assert len([o for o in mine if o.mtype == ACK and o.mid == 77]) == 1
                 assert res.calls == (1 if path_ok and meth <= 5 else 0)
+                if with_site_nesting:
+                    assert rootres.calls == 0, "request for the mount path of a nested site (no trailing slash) reached the nested site's root resource"
                 # the neighbour is unaffected by whatever happened to this request
                 if neighbour:
                     nf = [o for o in theirs if int(o.code) != 0]
@@ -268,6 +272,55 @@ def mk_concurrent_slow(n):
     return make
 
 
+def mk_static_reply(reach):
+    """a resource that builds its reply once and returns the same Message object every time: each response still carries the
+    token (and, piggy-backed, the message ID) of the request it answers"""
+    import asyncio
+    from vf import stack
+    from vf.simloop import SimLoop
+    from aiocoap.message import Message
+    from aiocoap import resource
+    from aiocoap.numbers.types import CON, NON, ACK
+    from aiocoap.numbers.codes import EMPTY
+    stack.configure(max_retransmit=1)
+
+    class Static(resource.Resource):
+        def __init__(self, delay):
+            super().__init__()
+            self.reply = Message(payload=b"static")
+            self.delay = delay
+
+        async def render_get(self, request):
+            if self.delay:
+                await asyncio.sleep(self.delay)
+            return self.reply
+
+    def h(t1: int, t2: int, t3: int, slow: bool, same_peer: bool) -> None:
+        assert 0 <= t1 <= 1 and 0 <= t2 <= 1 and 0 <= t3 <= 1
+        with SimLoop() as loop:
+            site = resource.Site()
+            site.add_resource(["s"], Static(300 if slow else 0))
+            S = stack.StackS(loop, site)
+            srcs = [stack.R0, stack.R0 if same_peer else stack.R1, stack.R0 if same_peer else stack.R2]
+            toks = [b"\x01\x01", b"\x02\x02", b"\x03\x03"]
+            for i, t in enumerate((t1, t2, t3)):
+                n0 = len(S.tr.sent)
+                S.deliver(Message(code=1, _mtype=pick([CON, NON], t), _mid=60 + i, _token=toks[i], uri_path=["s"]).encode(), srcs[i])
+                for _ in range(3):
+                    loop.advance(200)
+                    for key in list(S.mman._active_exchanges):
+                        S.deliver(Message(code=EMPTY, _mtype=ACK, _mid=key[1]).encode(), key[0].sockaddr)
+                loop.drain()
+                new = [Message.decode(d) for (d, a, tm) in S.tr.sent[n0:] if a[:2] == srcs[i][:2]]
+                fin = [o for o in new if int(o.code) != 0]
+                assert len(fin) == 1 and fin[0].token == toks[i] and fin[0].payload == b"static", "response must carry the token of the request it answers"
+                if t == 0 and not slow:
+                    assert fin[0].mtype == ACK and fin[0].mid == 60 + i
+            assert loop.exceptions == []
+        assert not reach, "reach"
+    return h
+
+
 def mk_nosite(reach):
     from vf import stack
     from vf.simloop import SimLoop
@@ -311,6 +364,9 @@ def obligations(tier):
                               symbolic={"handler outcomes": "%d indices over success / renderable error / crash" % n, "completion order": "index/4",
                                         "peer acknowledges after all handlers finished": "bool"},
                               concrete={"requests": "%d CON requests from one endpoint, all completing after the empty ACK" % n}))
+    obs.append(Obligation("static-reply-object", mk_static_reply, 200 if q else 600, functions=FUNCS,
+                          symbolic={"types of three successive requests": "CON / NON each", "handler completes after the empty ACK": "bool", "all from one endpoint": "bool"},
+                          concrete={"handler": "returns the same Message object for every request"}))
     obs.append(Obligation("no-site", mk_nosite, 200, functions=["protocol.Context._render_to_pipe"],
                           symbolic={"method": "index", "CON": "bool", "path length": "0..2"}))
     return obs
